@@ -94,7 +94,9 @@ def check_program(p):
         return [], 'rejected'
     out = []
     try:
-        G = tools.symbols_to_graph(symbols)
+        G = fresh_graph(symbols, script)
+    except GraphNotFresh as e:
+        return [('graph-not-fresh', e.args[0], e.args[1], 'a second call for the same model is affected by what the caller did to the first result: %r' % script)], 'accepted'
     except Exception as e:
         return [('graph-exception:%s' % type(e).__name__, 'a graph', repr(e)[:200], 'symbols_to_graph raised for %r' % script)], 'accepted'
     by_name = {s.name: s for s in symbols}
@@ -147,19 +149,43 @@ SPECIAL_EXPECT = [
     ("Y = X['b'] + Z", {'Y[t]': {"X['b']", 'Z[t]'}}),
     ('Y = (X +\n     Z[-1])', {'Y[t]': {'X[t]', 'Z[t-1]'}}),
     ('Y[1] = X + Y[-1]', {'Y[t+1]': {'X[t]', 'Y[t-1]'}}),
+    # several left-hand-side terms: one node each, every right-hand-side term points into each of them
+    ('(A, B) = (X[-1] + {a} * Z, X[-1] - {a} * Z)', {'A[t]': {'X[t-1]', 'a[t]', 'Z[t]'}, 'B[t]': {'X[t-1]', 'a[t]', 'Z[t]'}}),
+    ('(A, B[1]) = (X, <e>[-12])\nC = A[-10] + B', {'A[t]': {'X[t]', 'e[t-12]'}, 'B[t+1]': {'X[t]', 'e[t-12]'}, 'C[t]': {'A[t-10]', 'B[t]'}}),
+    ('Y = X[-12] + X[12] + Z[-100]', {'Y[t]': {'X[t-12]', 'X[t+12]', 'Z[t-100]'}}),
 ]
 
 
 @robust()
 def run_special(case):
     script, expect = SPECIAL_EXPECT[case['i']]
-    G = tools.symbols_to_graph(fsic.parse_model(script))
+    symbols = fsic.parse_model(script)
+    G = fresh_graph(symbols, script)
     out = []
     for y, want in expect.items():
         got = {u for u, _ in G.in_edges(y) if VARLIKE.match(u)} if y in G.nodes else None
         if got != want:
             out.append(('special:edges', sorted(want), sorted(got) if got is not None else None, 'in-edges of %s in %r' % (y, script)))
+        elif not G.nodes[y].get('equation'):
+            out.append(('special:node-equation', 'the normalised equation', G.nodes[y].get('equation'), 'node %s of %r carries no equation' % (y, script)))
     return out
+
+
+def fresh_graph(symbols, script):
+    """The graph under test is the one returned AFTER an earlier result for the same model was taken apart by its caller
+    (fsic's own examples prune the graph they get): every call must hand out a graph of its own."""
+    first = tools.symbols_to_graph(symbols)
+    snapshot = (sorted(first.nodes(data=True), key=repr), sorted(first.edges))
+    first.remove_nodes_from(list(first.nodes))
+    first.add_edge('junk[t]', 'junk2[t]')
+    again = tools.symbols_to_graph(fsic.parse_model(script))
+    if (sorted(again.nodes(data=True), key=repr), sorted(again.edges)) != snapshot:
+        raise GraphNotFresh(snapshot[1][:4], sorted(again.edges)[:4])
+    return again
+
+
+class GraphNotFresh(Exception):
+    pass
 
 
 def blocks(tier, seed):
